@@ -22,7 +22,7 @@ func drivers(quick bool) []conc.Driver {
 	budget := 90 * time.Second
 	faults := 1
 	if !quick {
-		budget = 20 * time.Minute
+		budget = 10 * time.Minute
 	}
 	cfg := vrt.Config{PreemptBound: -1, Budget: budget, MaxFaults: faults}
 	scs := []mdrv.Scenario{
@@ -41,14 +41,14 @@ func drivers(quick bool) []conc.Driver {
 	var ds []conc.Driver
 	for _, s := range scs {
 		s := s
-		ds = append(ds, conc.Driver{Name: s.Name() + "-faults1", Cfg: cfg, Mk: func() vrt.Run { return s.Mk() }, Fallback: []int{0, 1, 2}})
+		ds = append(ds, conc.Driver{Name: s.Name() + "-faults1", Cfg: cfg, Mk: func() vrt.Run { return s.Mk() }, Fallback: []int{0, 1, 2, 3, 4}})
 	}
 	if !quick {
 		cfg2 := cfg
 		cfg2.MaxFaults = 2
 		for _, s := range scs[:3] {
 			s := s
-			ds = append(ds, conc.Driver{Name: s.Name() + "-faults2", Cfg: cfg2, Mk: func() vrt.Run { return s.Mk() }, Fallback: []int{0, 1, 2}})
+			ds = append(ds, conc.Driver{Name: s.Name() + "-faults2", Cfg: cfg2, Mk: func() vrt.Run { return s.Mk() }, Fallback: []int{0, 1, 2, 3, 4}})
 		}
 	}
 	return ds
